@@ -624,6 +624,13 @@ static void gen_reload(struct scen *sc, struct rng *r, long c)
 	sc->cfg.nxplan = 9;
 	for (int i = 0; i < 6; i++)
 		add_event(&sc->cfg, (time_t)(1 + i * (sc->cfg.refresh + 1)), 1, 1 + rndn(r, 20));
+	if (c % 5 == 2) {
+		/* the cache loses all its prefixes (or everything) before one of the reloads and gets data again later: a reload
+		 * whose complete new set is empty */
+		int at = 1 + (int)rndn(r, 4);
+
+		sc->cfg.tevent[at].param = rndp(r, 1, 2) ? SIM_WIPE_PREFIXES : SIM_WIPE_ALL;
+	}
 }
 
 /* C18: a base conversation that reaches the allocation sites of a synchronisation: temporary PDU stores
